@@ -8,11 +8,14 @@ with the set of admissible client outcomes (reference + enabled deviations).
 Replay: the wire form is served to the real Client by a scripted socket, unsegmented and under
 cut/cap/random schedules, followed by two sentinel operations.
 """
+import contextlib
+import io
 import itertools
 import multiprocessing as mp
 import os
 import random
 import time
+import zlib
 
 from . import evidence, findings, ms_corpus as C
 from .tlc import run_tlc
@@ -61,7 +64,15 @@ def run_case(wire, op, plan, cap, before=()):
 
     def server(w, sock):
         return replies.pop(0) if replies else None
-    c, s = M.connected_client(server, plan=plan, cap=cap)
+    # configuration: a third of the (reply, operation) pairs run with the client's debug flag on -- the same value
+    # for every segmentation of one pair, so that outcomes stay comparable
+    dbg = zlib.crc32(wire + op.encode()) % 3 == 0
+    c, s = M.connected_client(server, plan=plan, cap=cap, debug=dbg)
+    with contextlib.redirect_stdout(io.StringIO()):
+        return _run_case(M, c, s, op, before)
+
+
+def _run_case(M, c, s, op, before):
     for bop, _ in before:
         M.call(getattr(c, bop), *ARGS[bop])
     res = M.call(getattr(c, op), *ARGS[op])
@@ -84,7 +95,12 @@ def run_connect(wire, plan, cap):
         return replies.pop(0) if replies else None
     s = M.FakeSocket(server, plan=plan, cap=cap)
     s.push(wire)
-    c = M.ms.Client("h")
+    c = M.ms.Client("h", debug=zlib.crc32(wire) % 3 == 0)
+    with contextlib.redirect_stdout(io.StringIO()):
+        return _run_connect(M, c, s)
+
+
+def _run_connect(M, c, s):
     with M.Patched([s]):
         res = M.call(c.connect, "user", "pass")
     obs = {"res": res, "errcode": c.errcode, "errmsg": c.errmsg, "left": s.leftover(), "buf": M.private_buffer(c),
